@@ -167,6 +167,24 @@ func (p *c16) Plan(tier string, seed uint64, i int) any {
 		}
 		pl.Modules = append(pl.Modules, mod)
 	}
+	if j := i / 9; i%9 == 7 && j < 12 {
+		// a message packed with exactly 22..24 or 254..256 small key/values (the
+		// CBOR array head of the message grows at 24 and 256 elements) followed by
+		// a value that fills whatever space is left
+		n := []int{22, 23, 24, 254, 255, 256}[j%6]
+		pl.OwnerMTU = []int{700, 1300}[j/6]
+		if n > 100 {
+			pl.OwnerMTU = []int{8000, 20000}[j/6]
+		}
+		pl.DevMTU, pl.Sql, pl.ExtraMods = 1300, false, 0
+		var replies []C16Msg
+		for k := 0; k < n; k++ {
+			replies = append(replies, C16Msg{Size: 1, Splits: 1})
+		}
+		replies = append(replies, C16Msg{Size: 3 * pl.OwnerMTU, Splits: 1})
+		pl.Modules = []C16Module{{Name: "fdo.simpack", OnDevice: true, Rounds: []C16Round{{Send: []C16Msg{{Size: 4}}, Replies: replies}}}}
+		return pl
+	}
 	if j := i / 9; i%9 == 8 && j < 162 {
 		// module-list boundary sweep: chunks that close at 22..24 names (CBOR
 		// array head grows at 24 elements) and at 254..256 names (head grows
@@ -734,9 +752,11 @@ func (p *c16) Exec(env *Env, plan any) {
 			continue
 		}
 		if n, err := ParseCBOR(b); err == nil && len(n.Kids) == 2 {
-			if sz := len(n.Kids[1].Encode(nil)); sz > sendMTU {
+			// the device side budgets the whole message against the negotiated size
+			// (exchangeServiceInfo reserves the framing around the key/value array)
+			if sz := len(b); sz > sendMTU {
 				o.Class = "MTU"
-				o.Violate("C16", "mtu-exceeded", "device-to-owner", "DeviceServiceInfo #%d carries %d bytes of service info, owner accepts %d", i, sz, sendMTU)
+				o.Violate("C16", "mtu-exceeded", "device-to-owner", "DeviceServiceInfo #%d is %d bytes, owner accepts %d", i, sz, sendMTU)
 			}
 		}
 	}
@@ -746,6 +766,9 @@ func (p *c16) Exec(env *Env, plan any) {
 			continue
 		}
 		if n, err := ParseCBOR(b); err == nil && len(n.Kids) == 3 {
+			// the owner side budgets the key/value array alone against the
+			// negotiated size (produceOwnerServiceInfo), so that is the budget the
+			// batch was given in this direction
 			if sz := len(n.Kids[2].Encode(nil)); sz > pl.DevMTU {
 				o.Class = "MTU"
 				o.Violate("C16", "mtu-exceeded", "owner-to-device", "OwnerServiceInfo #%d carries %d bytes of service info, device accepts %d", i, sz, pl.DevMTU)
